@@ -509,7 +509,7 @@ DT_REGEX = re.compile(
             )?
         )?
     )?
-    $
+    \Z
     """,
     re.VERBOSE,
 )
@@ -671,7 +671,7 @@ TIME_REGEX = re.compile(
             \]
         )?
     )?
-    $
+    \Z
     """,
     re.VERBOSE,
 )
